@@ -1,6 +1,7 @@
 /- C04, continued: Effect.save and the `<technique>` element when the shading type of a loaded effect is changed
    (the place of the new shader element was wrong before /repo 51e06da: found by the C04 check, see DESIGN §4). -/
 import Pyc.Proofs.Schema
+import Pyc.Props.C02
 
 namespace Pyc.Props.C04
 open Pyc.Schema Pyc.Generated.SchemaTable RegularExpression
@@ -105,5 +106,53 @@ example : cm_profile_COMMON_technique.rmatch (techKids true ["newparam", "image"
 theorem append_after_extra_invalid :
     cm_profile_COMMON_technique.rmatch (saveTechniqueAppend (techKids false [] "phong" 1) "lambert") = false := by decide
 
+
+/-! ### `<instance_material>` through MaterialNode.save (C02.sync_block read at the level of element names) -/
+
+section
+open Pyc.Sync
+variable {α : Type} [DecidableEq α]
+
+/-- `MaterialNode.save`: `_syncChildren(instance_material, inputs, bind_vertex_input, before=<first extra>)`.  Whatever the
+    edit history of the input list, the children of a schema-valid `<instance_material>` (`bind*`, `bind_vertex_input*`,
+    `extra*`) are schema-valid after the save: the new bindings stand where the old ones stood, in front of the extras. -/
+theorem instance_material_valid (name : α → String) (wanted B I E : List α)
+    (hB : ∀ c ∈ B, name c = "bind") (hI : ∀ c ∈ I, name c = "bind_vertex_input") (hE : ∀ c ∈ E, name c = "extra")
+    (hW : ∀ c ∈ wanted, name c = "bind_vertex_input") :
+    cm_technique_common_instance_material.rmatch
+      ((syncChildren (fun c => name c == "bind_vertex_input") wanted (B ++ I ++ E) E.head?).map name) = true := by
+  have notW : ∀ c, name c ≠ "bind_vertex_input" → c ∉ wanted := fun c hc hm => hc (hW c hm)
+  have hsync := Pyc.Props.C02.sync_block (fun c => name c == "bind_vertex_input") wanted B I E
+    (fun c hc => by
+      have := notW c (by rw [hB c hc]; decide)
+      simp [isM, hB c hc, this])
+    (fun c hc => by simp [isM, hI c hc])
+    (fun c hc => by
+      have := notW c (by rw [hE c hc]; decide)
+      simp [isM, hE c hc, this])
+    (fun e he hmem => by
+      have h1 : name e = "extra" := hE e (by cases E with
+        | nil => simp at he
+        | cons x xs => simp at he; subst he; simp)
+      have h2 := hB e hmem
+      rw [h1] at h2; revert h2; decide)
+  rw [hsync]
+  apply rmatch_of_mem
+  have mB : B.map name ∈ (star (char "bind")).matches' :=
+    mem_star_of_forall _ (fun a ha => by
+      obtain ⟨c, hc, rfl⟩ := List.mem_map.1 ha
+      rw [hB c hc]; exact mem_char _)
+  have mW : wanted.map name ∈ (star (char "bind_vertex_input")).matches' :=
+    mem_star_of_forall _ (fun a ha => by
+      obtain ⟨c, hc, rfl⟩ := List.mem_map.1 ha
+      rw [hW c hc]; exact mem_char _)
+  have mE : E.map name ∈ (star (char "extra")).matches' :=
+    mem_star_of_forall _ (fun a ha => by
+      obtain ⟨c, hc, rfl⟩ := List.mem_map.1 ha
+      rw [hE c hc]; exact mem_char _)
+  have := mem_mul (mem_mul mB mW) mE
+  simpa [cm_technique_common_instance_material, List.map_append, List.append_assoc] using this
+
+end
 
 end Pyc.Props.C04
